@@ -91,6 +91,31 @@ Section Alg.
                        | [x1; x2; y1; y2; z1; z2] => flat_to_points x1 x2 y1 y2 z1 z2 = p
                        | _ => False end.
   Proof. destruct p as [[a b c] [d e f]]. reflexivity. Qed.
+
+  (* trilinear spreading preserves the first moment across the cell *)
+  Lemma spread_first_moment (xc n h : F) : h <> 0 ->
+    (1 - (xc - n) / h) * n + (xc - n) / h * (n + h) = xc.
+  Proof. intros Hh. field. exact Hh. Qed.
+
+  (* input forms: coordinates + keywords give the electrodes of the Tx* instance *)
+  Lemma plain_point_form electric c az el len :
+    plain_points leb cosd sind sqrt angle electric (PI_dip (DPoint c az el)) len
+    = dipole_points leb cosd sind sqrt angle (negb electric) (DPoint c az el) len.
+  Proof. reflexivity. Qed.
+  Lemma plain_electrode_forms electric x1 x2 y1 y2 z1 z2 len len' :
+    plain_points leb cosd sind sqrt angle electric (PI_dip (DFlat x1 x2 y1 y2 z1 z2)) len
+    = dipole_points leb cosd sind sqrt angle (negb electric) (DPair (mkP3 x1 y1 z1) (mkP3 x2 y2 z2)) len' /\
+    plain_points leb cosd sind sqrt angle electric (PI_dip (DPair (mkP3 x1 y1 z1) (mkP3 x2 y2 z2))) len
+    = dipole_points leb cosd sind sqrt angle (negb electric) (DPair (mkP3 x1 y1 z1) (mkP3 x2 y2 z2)) len'.
+  Proof. split; reflexivity. Qed.
+  Lemma plain_magnetic_point_loop c az el len :
+    plain_points leb cosd sind sqrt angle false (PI_dip (DPoint c az el)) len
+    = Some (point_to_square_loop cosd sind sqrt c az el len).
+  Proof. reflexivity. Qed.
+  Lemma plain_electric_point_dipole c az el len :
+    plain_points leb cosd sind sqrt angle true (PI_dip (DPoint c az el)) len
+    = Some (fst (point_to_dipole cosd sind c az el len) :: snd (point_to_dipole cosd sind c az el len) :: nil).
+  Proof. reflexivity. Qed.
 End Alg.
 
 (* ----------------------------------------------- loop geometry over R *)
@@ -135,6 +160,26 @@ Section Loop.
     set (ce := cosd el) in *. set (se := sind el) in *.
     assert (Hh : h * h * 2 = area) by lra.
     repeat split; try (f_equal); nsatz.
+  Qed.
+
+  (* magnetic moment of the closed loop, 1/2 sum r_i x r_{i+1} about the centre,
+     = area * rotation(az, el) *)
+  Definition padd3 (a b : P3 R) : P3 R := mkP3 (px a + px b) (py a + py b) (pz a + pz b).
+  Lemma loop_moment (c : P3 R) :
+    exists q0 q1 q2 q3 q4,
+      point_to_square_loop cosd sind sqrt c az el area = (q0 :: q1 :: q2 :: q3 :: q4 :: nil) /\
+      (let n := rotation cosd sind az el in
+       let m := padd3 (padd3 (pcross (pminus q0 c) (pminus q1 c)) (pcross (pminus q1 c) (pminus q2 c)))
+                      (padd3 (pcross (pminus q2 c) (pminus q3 c)) (pcross (pminus q3 c) (pminus q4 c))) in
+       m = mkP3 (2 * (area * px n)) (2 * (area * py n)) (2 * (area * pz n))).
+  Proof.
+    unfold point_to_square_loop. do 5 eexists. split; [reflexivity|].
+    cbv zeta. unfold rotation, pscale, padd, pneg, pminus, pcross, padd3. cbn [px py pz].
+    rewrite !ninety_R. runf. rewrite c90a, s90a, c90e, s90e, c0, s0.
+    set (h := sqrt (area / 2)) in *. set (ca := cosd az) in *. set (sa := sind az) in *.
+    set (ce := cosd el) in *. set (se := sind el) in *.
+    assert (Hh : h * h * 2 = area) by lra.
+    f_equal; nsatz.
   Qed.
 End Loop.
 
